@@ -15,7 +15,9 @@ RULE = ("one record multiset (pixels repeated across chunks, 1-2 value columns, 
         "orders, mergebuf from 1 record upward, max_merge from 1 upward (single-pass and recursive two-level merge), "
         "sorted chunks or ensure_sorted; every execution's pixel table (raw h5py) must equal the one in-memory fold "
         "exactly; temp files created by the execution (audit hook + directory listing) must be gone after success. "
-        "Non-trivial: >= 2 chunks and >= 1 pixel; distinct = (multiset, partition, order, mergebuf, max_merge)")
+        "Non-trivial: >= 2 chunks and >= 1 pixel; distinct = (multiset, partition, order, mergebuf, max_merge). CLI shards: "
+        "`cooler cload pairs --field score=N:dtype=float[,agg=sum|max|min]` over the same records with --chunksize "
+        "1, 2, 3, n-1, n, 1e6: counts and the value column must be the aggregate over ALL records of each pixel")
 ASSUMPTIONS = ["values are ints or dyadic floats so sums are exact in any order",
                "failed runs are outside the temp-file clause"]
 MIN_NONTRIVIAL = {"quick": 200, "thorough": 2000}
